@@ -112,7 +112,12 @@ CallerHoldsRM == \E q \in Reqs : cpc[q] = "selfblocked"
 RMFree == ~rmBlocked /\ ~CallerHoldsRM
 \* Deliver response v for request r: effect on resp and routers.
 \* A full streaming channel blocks the deliverer.
-CanDeliver(r) == r \notin routers \/ ~Streaming(r) \/ Len(resp[r]) - taken[r] < ChanCap
+\* (CapOf and Multi are operators so that the trace specification can give them per request: a
+\* streaming call over several nodes has a reply channel of that many slots, shared by those nodes,
+\* and does not end with the first node's error)
+CapOf(r) == ChanCap
+Multi(r) == FALSE
+CanDeliver(r) == r \notin routers \/ ~Streaming(r) \/ Len(resp[r]) - taken[r] < CapOf(r)
 Delivered(r, v) ==
   IF r \in routers
     THEN /\ resp' = [resp EXCEPT ![r] = Append(@, v)]
@@ -184,13 +189,14 @@ CtxReply(r) ==
 
 \* Another node of the streaming call's configuration has answered: its reply sits
 \* in the call's (shared, bounded) reply channel.  ENVIRONMENT of this node.
-ForeignItem(r) ==
-  /\ Foreign /\ Streaming(r) /\ cpc[r] \in {"handoff", "wait"}
-  /\ Len(resp[r]) - taken[r] < ChanCap /\ Len(resp[r]) < MaxItems + ChanCap
-  /\ resp' = [resp EXCEPT ![r] = Append(@, "ok")]
+ForeignItemV(r, v) ==
+  /\ Streaming(r)
+  /\ Len(resp[r]) - taken[r] < CapOf(r) /\ Len(resp[r]) < MaxItems + CapOf(r)
+  /\ resp' = [resp EXCEPT ![r] = Append(@, v)]
   /\ UNCHANGED <<cpc, ctx, taken, sendQ, spc, cur, sndErr, sretries, sndEpoch, raced, rpc, rcvEpoch, rmsg, rcvLast, rcvFailed, watcher, broken, wake,
                  established, lkW, lkR, lkWait, epoch, alive, routers, rmBlocked, c2s, s2c, up, crashes, mutHeld,
                  handlers, items, closed, enqOrder, started>>
+ForeignItem(r) == Foreign /\ cpc[r] \in {"handoff", "wait"} /\ ForeignItemV(r, "ok")
 
 \* The manager connects when it is created: dial, first stream, receiver started -
 \* before any request exists (node.connect).  When the server is down then, the
@@ -209,7 +215,7 @@ Take(r) ==
   /\ cpc[r] = "wait" /\ taken[r] < Len(resp[r])
   /\ taken' = [taken EXCEPT ![r] = @ + 1]
   /\ LET v == resp[r][taken[r] + 1] IN
-       cpc' = [cpc EXCEPT ![r] = IF Streaming(r) /\ v = "ok" /\ taken'[r] < MaxItems THEN "wait"
+       cpc' = [cpc EXCEPT ![r] = IF Streaming(r) /\ (v = "ok" \/ Multi(r)) /\ taken'[r] < MaxItems THEN "wait"
                                   ELSE IF Streaming(r) THEN "delete" ELSE "done"]
   /\ UNCHANGED <<ctx, resp, sendQ, spc, cur, sndErr, sretries, sndEpoch, raced, rpc, rcvEpoch, rmsg, rcvLast, rcvFailed, watcher, broken, wake,
                  established, lkW, lkR, lkWait, epoch, alive, routers, rmBlocked, c2s, s2c, up, crashes, mutHeld,
